@@ -54,6 +54,24 @@ def _method_cpp(m, backend, u):
     """One member function of a model class: declared C++ return type, value from the event."""
     cpp = m["cpp"][backend]
     name = m["name"]
+    mode = m.get("mode", "std")
+    if mode == "byvalue" and m["kind"] in ("R1", "R2"):
+        return '  %s %s() const { %s r; r._id = vp::ref(_id, "%s"); return r; }' % (cpp, name, cpp, name)
+    if mode == "byvalue":
+        return '  %s %s() const { return *vp::obj<%s>(vp::ref(_id, "%s")); }' % (cpp, name, cpp, name)
+    if mode == "ptr2":
+        base = cpp.rstrip("*")
+        return ('  %s %s() const { static std::map<int, %s*> slot; int r = vp::ref(_id, "%s"); slot[r] = vp::obj<%s>(r); '
+                'return &slot[r]; }' % (cpp, name, base, name, base))
+    if mode == "collptr":
+        return ('  std::vector<%s>* %s() const { static std::map<int, std::vector<%s>> slot; slot[_id] = vp::numvec<%s>(_id, "%s"); '
+                'return &slot[_id]; }' % (cpp, name, cpp, cpp, name))
+    if mode == "treetype":
+        return '  vp::Code %s() const { return static_cast<vp::Code>(static_cast<int>(vp::num(_id, "%s"))); }' % (name, name)
+    if mode == "enum":
+        return '  Color %s() const { return static_cast<Color>(static_cast<int>(vp::num(_id, "%s"))); }' % (name, name)
+    if mode == "enumarg":
+        return '  int %s(Color c) const { return static_cast<int>(vp::num(_id, "color")) == static_cast<int>(c) ? 1 : 0; }' % name
     if m["ret"] == "num":
         if cpp == "bool":
             return '  bool %s() const { return vp::num(_id, "%s") != 0; }' % (name, name)
@@ -88,7 +106,18 @@ def class_header(cls, backend, u, extra_methods=()):
     lines = ["#pragma once", '#include "vp_core.h"']
     for d in deps:
         lines.append('#include "vp_edm_%s.h"' % d)
+    if cls in ("R1", "R2"):
+        # smart references to a T: R1 reaches T's methods with one dereference, R2 with two
+        t = b["classes"]["T"]
+        ref = ('#include "vp_edm_T.h"\nnamespace vp {\n'
+               'struct TRef { int _id = 0; %s *operator->() const { return vp::obj<%s>(_id); } '
+               '%s &operator*() const { return *vp::obj<%s>(_id); } bool isNonnull() const { return _id != 0; } };\n'
+               'struct TRefRef { int _id = 0; TRef *operator->() const { return &*(*this); } '
+               'TRef &operator*() const { static std::map<int, TRef> slot; slot[_id]._id = _id; return slot[_id]; } };\n}\n' % (t, t, t, t))
+        return "#pragma once\n" + ('#include "vp_core.h"\n' + ref if cls == "R1" else '#include "vp_edm_R1.h"\n')
     body = "class @CLS@ {\n public:\n  int _id = 0;\n"
+    if any(m.get("mode") in ("enum", "enumarg") for m in methods):
+        body += "  enum Color { Red = 0, Blue = 1 };\n"
     body += "\n".join(_method_cpp(m, backend, u) for m in methods)
     # a class that is itself a singleton collection is retrieved directly from the store
     for coll in u["singletons"]:
